@@ -303,9 +303,11 @@ func groupMutedReportRule(o *Ob) {
 	}
 	found := L("recv.groups["+key+"]#1", true)
 	st := "recv.groups[" + key + "]#0.mutedBy"
+	noNames := LRe(`\(len\(`+regexpQuote(st)+`\) == 0\)|\(len\(`+regexpQuote(st)+`\) < 1\)`, true)
 	o.Table(mu, "muted", []Row{
 		{Name: "unknown group", Assume: A(found.Neg()), Ret: [][]string{Vals("nil"), Vals("false")}},
-		{Name: "known group", Assume: A(found), Ret: [][]string{Vals(st), Vals("(len("+st+") > 0)", "¬(len("+st+") < 1)", "(0 < len("+st+"))", "(len("+st+") != 0)", "¬(len("+st+") == 0)", "!(len("+st+") == 0)")}},
+		{Name: "known group, no names", Assume: A(found, noNames), Opt: A(L("(recv.groups["+key+"]#0 == nil)", false)), Ret: [][]string{Vals(st), Vals("false")}},
+		{Name: "known group, names", Assume: A(found, noNames.Neg()), Opt: A(L("(recv.groups["+key+"]#0 == nil)", false)), Ret: [][]string{Vals(st), Vals("true")}},
 	})
 	n := 0
 	isNameStore := map[ssa.Instruction]bool{}
